@@ -663,7 +663,29 @@ fn do_check(engine: &Engine, prop: &Prop, args: &Args) -> i32 {
 
     // samples: runs 0..3 re-run verbosely (deterministic choice of samples)
     let mut samples = vec![];
-    for r in 0..3u64.min(runs) {
+    // up to 4 sample runs from distinct scenarios (first run index of each), deterministic
+    let mut sample_runs: Vec<u64> = vec![];
+    {
+        let tot: u64 = prop.scenarios.iter().map(|s| s.weight).sum();
+        let mut seen: Vec<usize> = vec![];
+        let mut r = 0u64;
+        while r < runs.min(tot.max(1)) && sample_runs.len() < 4 {
+            let si = scenario_for(prop, r);
+            if !seen.contains(&si) {
+                seen.push(si);
+                sample_runs.push(r);
+            }
+            r += 1;
+        }
+        let mut extra = 1u64;
+        while sample_runs.len() < 3u64.min(runs) as usize {
+            if !sample_runs.contains(&extra) {
+                sample_runs.push(extra);
+            }
+            extra += 1;
+        }
+    }
+    for r in sample_runs {
         let si = scenario_for(prop, r);
         let sc = &prop.scenarios[si];
         let mut sim = Sim::seeded(run_seed(args.seed, engine.name, sc.name, r));
